@@ -85,4 +85,33 @@ def dil_sign (p : Params) (fuel : Nat) (skBytes msg : List Nat) : Chk (Option (L
 def dil_verify (p : Params) (pkBytes msg sig : List Nat) : Chk Bool :=
   if sig.length ≠ p.sigBytes then .ok false else verify p sig msg pkBytes
 
+/-! `Keypair::{sign, prehash_sign, verify, prehash_verify}`: `self.secret.sign(..)` / `self.public.verify(..)` on the two
+    halves stored by `Keypair::from_bytes` (first argument here: the bytes `Keypair::to_bytes` returns, sk ‖ pk). -/
+
+def kp_mldsa_sign (p : Params) (fuel : Nat) (kpBytes msg : List Nat) (ctx : Option (List Nat)) (hedged : Bool) (tape : Tape) :
+    Chk (Option (List Nat) × Tape) := do
+  let (sk, _) ← keypair_from_bytes p kpBytes
+  mldsa_sign p fuel sk msg ctx hedged tape
+
+def kp_mldsa_prehash_sign (p : Params) (fuel : Nat) (kpBytes phm : List Nat) (ctx : Option (List Nat)) (hedged : Bool) (ph : PH)
+    (tape : Tape) : Chk (Option (List Nat) × Tape) := do
+  let (sk, _) ← keypair_from_bytes p kpBytes
+  mldsa_prehash_sign p fuel sk phm ctx hedged ph tape
+
+def kp_mldsa_verify (p : Params) (kpBytes msg sig : List Nat) (ctx : Option (List Nat)) : Chk Bool := do
+  let (_, pk) ← keypair_from_bytes p kpBytes
+  mldsa_verify p pk msg sig ctx
+
+def kp_mldsa_prehash_verify (p : Params) (kpBytes phm sig : List Nat) (ctx : Option (List Nat)) (ph : PH) : Chk Bool := do
+  let (_, pk) ← keypair_from_bytes p kpBytes
+  mldsa_prehash_verify p pk phm sig ctx ph
+
+def kp_dil_sign (p : Params) (fuel : Nat) (kpBytes msg : List Nat) : Chk (Option (List Nat)) := do
+  let (sk, _) ← keypair_from_bytes p kpBytes
+  dil_sign p fuel sk msg
+
+def kp_dil_verify (p : Params) (kpBytes msg sig : List Nat) : Chk Bool := do
+  let (_, pk) ← keypair_from_bytes p kpBytes
+  dil_verify p pk msg sig
+
 end DV
